@@ -30,7 +30,8 @@ def run(ctx):
     # ---------------------------------------------------------------- R12.2 the whole of phase2t, per sign of delta
     def split2(arg):
         """(a, b) of a two-argument function atom fn(a, b)"""
-        return arg.diff('__sep__'), arg.subst({'__sep__': Rat.const(0)})
+        b = arg.subst({'__sep__': Rat.const(0)})        # the argument pair is encoded linearly as a*__sep__ + b
+        return arg.subst({'__sep__': Rat.const(1)}) - b, b
 
     for sweep in (False, True):
         def th2(it, sweep=sweep):
